@@ -12,7 +12,7 @@ from . import synth
 
 
 def gen_cp_events(seed: int, n_steps: int = 2, n_streams: int = 2, sync_records: bool = True, q: int = 5, base: int = 1_000_000, annotations: bool = False,
-                  n_threads: int = 1, frac_kernels: bool = False) -> List[Dict[str, Any]]:
+                  n_threads: int = 1, frac_kernels: bool = False, python_frames: bool = False) -> List[Dict[str, Any]]:
     """n_threads=2 adds a second host thread (larger tid) whose operators run concurrently with the main thread's inside
     every step and launch kernels on a stream of their own; kernels that a device-wide synchronisation of the main thread
     would have to wait for beyond its return are not generated (causal consistency)."""
@@ -29,6 +29,14 @@ def gen_cp_events(seed: int, n_steps: int = 2, n_streams: int = 2, sync_records:
     def nc():
         corr[0] += 1
         return corr[0]
+
+    def region(name, ts, dur):
+        if python_frames:
+            # a Python stack frame (with_stack=True) instead of a user annotation: also an event without graph nodes; its display name
+            # shortens to the empty string / looks like a missing value when written to CSV
+            nm = {"my_region": "<built-in method run_backward of torch._C._EngineBase object at 0x7f5c2c1d3a90>", "my_other_region": "None"}.get(name, name)
+            return {"ph": "X", "cat": "python_function", "name": nm, "pid": synth.HOST_PID, "tid": 1, "ts": ts, "dur": dur}
+        return synth.annotation(name, ts, dur)
 
     t = base
     evs.append(synth.host_op("aten::first_op", t, q))
@@ -62,18 +70,18 @@ def gen_cp_events(seed: int, n_steps: int = 2, n_streams: int = 2, sync_records:
             inner_t0, inner_t1 = t + (0 if rng.random() < 0.3 else q), t + d - (0 if rng.random() < 0.3 else q)
             ann_mode = rng.choice(["whole", "first_child_only", "second_child_only", "each_child_its_own"]) if (annotations and rng.random() < 0.6) else None
             if ann_mode == "whole" and inner_t1 - inner_t0 >= 3 * q:
-                body.append(synth.annotation("my_region", inner_t0, inner_t1 - inner_t0))
+                body.append(region("my_region", inner_t0, inner_t1 - inner_t0))
             if (rng.random() < 0.5 or ann_mode in ("first_child_only", "second_child_only", "each_child_its_own")) and inner_t1 - inner_t0 >= 3 * q:
                 mid = inner_t0 + q * rng.randint(1, max(1, (inner_t1 - inner_t0) // q - 2))
                 if ann_mode in ("first_child_only", "each_child_its_own"):
-                    body.append(synth.annotation("my_region", inner_t0, mid - inner_t0))  # encloses inner_a only
+                    body.append(region("my_region", inner_t0, mid - inner_t0))  # encloses inner_a only
                 body.append(synth.host_op("aten::inner_a", inner_t0, mid - inner_t0))
                 launch_zone = (inner_t0, mid)
                 b0 = mid + q * rng.randint(0, 1)
                 if inner_t1 - b0 >= q and (rng.random() < 0.7 or ann_mode is not None):
                     if ann_mode in ("second_child_only", "each_child_its_own") and inner_t1 - b0 >= 2 * q:
                         # an annotation around the SECOND child only: it starts after the first child has ended, with a gap before it
-                        body.append(synth.annotation("my_other_region", b0 + q, inner_t1 - b0 - q))
+                        body.append(region("my_other_region", b0 + q, inner_t1 - b0 - q))
                         body.append(synth.host_op("aten::inner_b", b0 + q, inner_t1 - b0 - q))
                     else:
                         body.append(synth.host_op("aten::inner_b", b0, inner_t1 - b0))
